@@ -472,7 +472,7 @@ impl Chip126x {
                 // monitor (b)
                 env.alert(
                     "C14.commanded-while-asleep",
-                    format!("sx126x|{}|{}|{why}", env.cur_op, opname(op)),
+                    format!("sx126x|{why}|{}|{}", env.cur_op, opname(op)),
                     format!("{}() sent {} ({:#04x}) while the chip was in {why} without waking it first; the command is lost", env.cur_op, opname(op), op),
                 );
             }
